@@ -26,6 +26,7 @@ def run(chk):
     r10e(chk)
     r10f(chk)
     r10g(chk)
+    r10h(chk)
 
 
 # ---------------------------------------------------------------------------
@@ -460,3 +461,19 @@ def r10g(chk, rid='R10.g'):
             bad.append(f'removeVariable({name!r}): items {got}, name map {mapped}, returns {res!r}; prescribed {want} in both, returning {wantret!r}')
     chk.extra['variable_edit_cases'] = n
     chk.ob(rid, VARS, 'CSSVariablesDeclaration', f'all {n} edits keep the item list and the name map in step', not bad, f'{len(bad)} cases differ, e.g. ' + '; '.join(bad[:2]))
+
+
+def r10h(chk, rid='R10.h'):
+    chk.rule(rid, 'the name map of a variables block is private to it: `_vars` is read and written only as `self._vars` inside CSSVariablesDeclaration; everybody else goes through the mapping interface, which hands out the *text* of a value - so a value object is never shared between two blocks (a sheet-level table filled with shared objects can refer back to itself: var() resolution then recurses without end)')
+    n = 0
+    for rel, m in chk.repo.modules.items():
+        if not rel.startswith('cssutils/') or '/tests/' in rel:
+            continue
+        for x in ast.walk(m.tree):
+            if isinstance(x, ast.Attribute) and x.attr == '_vars':
+                n += 1
+                q = m.qualname_of(x)
+                ok = rel == VARS and q.startswith('CSSVariablesDeclaration.') and isinstance(x.value, ast.Name) and x.value.id == 'self'
+                chk.ob(rid, rel, q, f'`{text(m.enclosing_stmt(x))[:70]}` reaches the name map', ok, 'parsed value objects of another block are taken over instead of their text', trivial=ok)
+    if n < 5:
+        raise AnalysisError(f'only {n} uses of _vars found')
